@@ -9,7 +9,7 @@ import sys
 
 sys.path.insert(0, os.path.dirname(os.path.dirname(os.path.abspath(__file__))))
 from vlib.prop import Check
-from props import recv_common, C08, C09, C11, C12, C14, C15, C16, C18
+from props import recv_common, C08, C09, C11, C12, C13, C14, C15, C16, C18
 
 
 def main():
@@ -19,7 +19,7 @@ def main():
     jobs = []
     bounds = {}
     outside = []
-    for mod in (C18, C16, C08, C09, C15, C12, C14, C11):
+    for mod in (C18, C16, C08, C09, C15, C12, C14, C13, C11):
         sub = ck.sub()
         sub.only_panics = True
         js = mod.prepare(sub)
@@ -29,7 +29,7 @@ def main():
     # the struct receivers (C01/C02 exploration)
     ck.run_jobs(jobs)
     recv_common.run(ck, "C02")
-    ck.bounds = {"explorations": "those of C02 (struct receivers), C08, C09, C11, C12, C14, C15, C16, C18 at this tier", "per_property_bounds": bounds}
+    ck.bounds = {"explorations": "those of C02 (struct receivers), C08, C09, C11, C12, C13, C14, C15, C16, C18 at this tier", "per_property_bounds": bounds}
     ck.outside = ["entry points and receivers outside those explorations", "inputs beyond the per-property bounds (list lengths, nesting depth, digit counts)",
                   "panics inside syn / proc-macro2 themselves (modelled)"]
     ck.assumptions = ["a leaf that the engine cannot execute (unsupported construct) is reported as inconclusive, never as total"]
